@@ -138,7 +138,17 @@ def register(R):
         tags = v.obj(req.fields['_tag_semaphores']).items
         up, dn = tags.get(('$opaque', 'IN_MEMORY_UPLOAD_TAG')), tags.get(('$opaque', 'IN_MEMORY_DOWNLOAD_TAG'))
         user_cfg = c.a_config
+        # the two task tags key the tag-semaphore dict: as values (TaskTag is a namedtuple: equal fields = equal keys) they must
+        # differ, or the dict collapses to one entry and one limit silently replaces the other (the tags are otherwise modelled
+        # by identity only)
+        import ast as _ast
+        assigns = c.engine.repo.modules['s3transfer.futures'].assigns
+        tv = [assigns[n] for n in ('IN_MEMORY_UPLOAD_TAG', 'IN_MEMORY_DOWNLOAD_TAG')]       # KeyError -> contract does not attach
+        if not all(isinstance(x, _ast.Call) and all(isinstance(a, _ast.Constant) for a in x.args) and not x.keywords for x in tv):
+            raise KeyError('task tags are not built from constants')
+        distinct_tags = _ast.dump(tv[0]) != _ast.dump(tv[1])
         return {
+            'the_two_in_memory_tags_are_distinct_dictionary_keys': (B(distinct_tags), ['C10', 'C11', 'C12']),
             'the_users_configuration_is_used_when_one_is_given': (z3.Or(user_cfg.is_none, B(cfg is user_cfg.val)) if isinstance(user_cfg, Opt) else B(cfg is user_cfg), ['C10', 'C11', 'C14']),
             'request_stage_threads_and_queue': B(pool(req) is g('max_request_concurrency')
                                                  and sem_count(v, req.fields['_semaphore']) is g('max_request_queue_size')),
